@@ -5,7 +5,19 @@
 //! (1) no operation fails unless a concurrent operation of another task touches the same
 //! key (an operation that loses no race does not fail); (2) the call/return history is
 //! linearizable w.r.t. the sequential map specification (brute force); (3) after all tasks
-//! finished the reported entry count and usage equal the real contents.
+//! finished the reported entry count and usage equal the real contents: exactly after a
+//! settling pass (one get per key — that is when expired entries are collected), and before
+//! that pass they may exceed the retrievable contents by at most the entries that were put
+//! already expired (an entry nobody can retrieve and that is not an uncollected expired one
+//! must not be on the books once every task has returned).
+//!
+//! Pre-states: besides "fresh cache + sequential set-up", the DiskCache bodies also start from
+//! "a new instance on the directory a previous instance filled" (the set-up runs on a first
+//! instance that is dropped; the tasks run on a second one whose index is still empty, so
+//! every first access takes the on-disk fallback paths).
+//!
+//! `stats` (the call that reports the books) may be one of the concurrent operations; as an
+//! operation it has to return without failing (its hit/miss figures are not judged).
 
 use crate::report::{Level, Report, Tier};
 use crate::sched::{Execution, FinishFn, OpRecord, SchedBody, SeqSpec, TaskCtx, TaskFn, Trace, explore, linearizable};
@@ -36,6 +48,8 @@ pub enum COp {
     PutX(&'static str, &'static str),
     Remove(&'static str),
     Clear,
+    /// `stats()`: reads the books while other tasks work
+    Stats,
 }
 
 impl COp {
@@ -47,13 +61,33 @@ impl COp {
             COp::PutX(k, v) => format!("putx {k} {v}"),
             COp::Remove(k) => format!("remove {k}"),
             COp::Clear => "clear".to_string(),
+            COp::Stats => "stats".to_string(),
         }
     }
     fn key(&self) -> Option<&'static str> {
         match self {
             COp::Get(k) | COp::Contains(k) | COp::Put(k, _) | COp::PutX(k, _) | COp::Remove(k) => Some(k),
-            COp::Clear => None,
+            COp::Clear | COp::Stats => None,
         }
+    }
+    /// May the two operations race for the same entry? `clear` touches every key, `stats` none.
+    fn conflicts(&self, other: &COp) -> bool {
+        if matches!(self, COp::Stats) || matches!(other, COp::Stats) {
+            return false;
+        }
+        match (self.key(), other.key()) {
+            (Some(a), Some(b)) => a == b,
+            _ => true,
+        }
+    }
+}
+
+/// What a `stats()` call did, as an operation result. The figures themselves are judged after
+/// all tasks finished (entry count, usage); hit/miss counters are not the property's subject.
+fn stats_result(r: Result<cascette_cache::stats::CacheStats, String>) -> String {
+    match r {
+        Ok(_) => "ok".into(),
+        Err(e) => format!("Err({e})"),
     }
 }
 
@@ -127,6 +161,7 @@ impl AnyCache {
                         Ok(()) => "ok".into(),
                         Err(e) => format!("Err({e})"),
                     },
+                    COp::Stats => stats_result(block_on(c.stats()).map_err(|e| e.to_string())),
                 }
             }};
         }
@@ -155,6 +190,7 @@ impl AnyCache {
                     Err(e) => format!("Err({e})"),
                 },
                 COp::Remove(_) => "false".into(),
+                COp::Stats => "ok".into(),
                 COp::Clear => match c.clear() {
                     Ok(()) => "ok".into(),
                     Err(e) => format!("Err({e})"),
@@ -186,12 +222,16 @@ pub struct CacheBody {
     pub tasks: Vec<Vec<COp>>,
     /// capacity may be reached: a get may legitimately find nothing
     pub evicting: bool,
+    /// DiskCache only: the set-up runs on a first instance, the tasks on a new instance on the
+    /// same directory (empty index, files present)
+    pub reopen: bool,
 }
 
 impl CacheBody {
     fn class(&self) -> &'static str {
         match self.kind {
             Kind::Memory { .. } => "mem",
+            Kind::Disk { .. } if self.reopen => "disk-reopened",
             Kind::Disk { .. } => "disk",
             Kind::Layered => "layered",
             Kind::Protocol => "protocol",
@@ -330,6 +370,14 @@ impl SeqSpec for MapSpec {
                     vec![]
                 }
             }
+            // reads the books, changes nothing
+            "stats" => {
+                if result == "ok" {
+                    vec![st.clone()]
+                } else {
+                    vec![]
+                }
+            }
             _ => vec![],
         }
     }
@@ -348,6 +396,7 @@ impl SchedBody for CacheBody {
             Kind::Memory { max_entries, policy, max_bytes } => {
                 format!("MemoryCache(max_entries={max_entries},policy={},max_bytes={max_bytes})", ["lru", "lfu", "fifo"][usize::from(*policy) % 3])
             }
+            Kind::Disk { subdirs } if self.reopen => format!("DiskCache(subdirs={subdirs},new instance after set-up)"),
             Kind::Disk { subdirs } => format!("DiskCache(subdirs={subdirs})"),
             Kind::Layered => "MultiLayerCacheImpl[Memory(1000),Disk]".to_string(),
             Kind::Protocol => "ProtocolCache(DiskCache)".to_string(),
@@ -397,13 +446,25 @@ impl SchedBody for CacheBody {
                 AnyCache::Protocol(cascette_protocol::cache::ProtocolCache::new(&cfg).expect("protocol cache"), sc)
             }
         };
-        let cache = Arc::new(cache);
         // sequential set-up on the explorer thread (no hook installed here)
         let mut pre: Vec<OpRecord> = Vec::new();
         for (i, op) in self.setup.iter().enumerate() {
             let r = cache.exec(op);
             pre.push(OpRecord { task: 99, seq: i, op: op.name(), call: 0, ret: 0, result: r });
         }
+        // pre-state "new instance on a filled directory": same configuration, same directory
+        let cache = match (cache, &self.kind) {
+            (AnyCache::Disk(first, sc), Kind::Disk { subdirs }) if self.reopen => {
+                drop(first);
+                let cfg = DiskCacheConfig::new(sc.path.join("cache"))
+                    .with_max_files(1000)
+                    .with_default_ttl(Duration::from_secs(3600))
+                    .with_subdirectories(*subdirs, 1);
+                AnyCache::Disk(DiskCache::new(cfg).expect("disk cache (second instance)"), sc)
+            }
+            (c, _) => c,
+        };
+        let cache = Arc::new(cache);
         let mut tasks: Vec<TaskFn> = Vec::new();
         for ops in &self.tasks {
             let ops = ops.clone();
@@ -417,17 +478,24 @@ impl SchedBody for CacheBody {
         let keys = self.keys();
         let evicting = self.evicting;
         let task_ops: Vec<Vec<COp>> = self.tasks.clone();
+        // per key the largest value that was ever stored already expired
+        let mut expired_puts: BTreeMap<&'static str, usize> = BTreeMap::new();
+        for op in self.setup.iter().chain(self.tasks.iter().flatten()) {
+            if let COp::PutX(k, v) = op {
+                let e = expired_puts.entry(k).or_insert(0);
+                *e = (*e).max(value_bytes(v).len());
+            }
+        }
+        let slack_entries = expired_puts.len();
+        let slack_bytes: usize = expired_puts.values().sum();
         let c = cache.clone();
         let finish: FinishFn = Box::new(move |ops: &[OpRecord]| {
             // (1) failures: allowed only when another task's overlapping op touches the same key
             for o in ops {
                 if o.result.starts_with("Err(") {
-                    let my_key = task_ops[o.task][o.seq].key();
+                    let mine = &task_ops[o.task][o.seq];
                     let raced = ops.iter().any(|p| {
-                        p.task != o.task && !(p.ret < o.call || o.ret < p.call) && {
-                            let pk = task_ops[p.task][p.seq].key();
-                            pk.is_none() || my_key.is_none() || pk == my_key
-                        }
+                        p.task != o.task && !(p.ret < o.call || o.ret < p.call) && mine.conflicts(&task_ops[p.task][p.seq])
                     });
                     if !raced {
                         return Err((
@@ -452,6 +520,18 @@ impl SchedBody for CacheBody {
                 o2.ret += 10;
                 all.push(o2);
             }
+            // the books as reported right after the last task returned (before anything settles);
+            // a reporting call that panics reports nothing
+            let books = |what: &str| -> Result<(Option<usize>, Option<usize>), (String, String)> {
+                match crate::util::catch(|| (c.size(), c.usage())) {
+                    Ok((size, usage)) => Ok((size.map_err(|e| ("size-error".to_string(), e))?, usage.map_err(|e| ("stats-error".to_string(), e))?)),
+                    Err(msg) => {
+                        let loc = crate::util::take_last_panic_loc().map(|l| crate::util::norm_loc(&l)).unwrap_or_default();
+                        Err(("books-panic".to_string(), format!("size()/stats() {what} panicked at {loc}: {msg}")))
+                    }
+                }
+            };
+            let (size_before, usage_before) = books("after all tasks finished")?;
             let mut step = ops.iter().map(|o| o.ret).max().unwrap_or(0) + 100;
             let mut live = 0usize;
             let mut bytes = 0usize;
@@ -483,9 +563,26 @@ impl SchedBody for CacheBody {
                 let h: Vec<String> = all.iter().map(|o| format!("t{} {} [{}..{}] -> {}", o.task, o.op, o.call, o.ret, o.result)).collect();
                 return Err(("not-linearizable".to_string(), format!("no sequential order of the map specification explains: {h:?}")));
             }
-            // (3) books after settling (the final gets touched every key)
-            let size = c.size().map_err(|e| ("size-error".to_string(), e))?;
-            let usage = c.usage().map_err(|e| ("stats-error".to_string(), e))?;
+            // (3a) books before settling: what is reported beyond the retrievable contents can
+            // only be entries that were stored already expired and not collected yet
+            if let Some(size) = size_before {
+                if size > live + slack_entries {
+                    return Err((
+                        "books-entry-overcount".to_string(),
+                        format!("after all tasks finished size() = {size}, but {live} keys are retrievable ({finals:?}) and at most {slack_entries} uncollected expired entries can exist"),
+                    ));
+                }
+            }
+            if let Some(usage) = usage_before {
+                if usage > bytes + slack_bytes {
+                    return Err((
+                        "books-usage-overcount".to_string(),
+                        format!("after all tasks finished the reported usage = {usage} bytes, but the retrievable content is {bytes} bytes ({finals:?}) and uncollected expired entries can hold at most {slack_bytes} bytes"),
+                    ));
+                }
+            }
+            // (3b) books after settling (the final gets touched every key)
+            let (size, usage) = books("after the settling gets")?;
             if let Some(size) = size {
                 if size != live {
                     return Err(("books-entry-count".to_string(), format!("size() = {size} but {live} keys are retrievable ({finals:?})")));
@@ -765,6 +862,54 @@ fn sig_for(class: &str) -> impl Fn(&str, &Trace) -> String + Sync + '_ {
     }
 }
 
+/// Signature for the classes whose windows are made of lock operations (every schedule that
+/// slips an operation into the same window preempts at a different mix of `rwlock.*` points):
+/// the operations of different tasks that overlapped in time, without their values.
+fn sig_by_overlap(class: &str) -> impl Fn(&str, &Trace) -> String + Sync + '_ {
+    move |kind: &str, x: &Trace| {
+        let short = |op: &str| op.split(' ').take(2).collect::<Vec<_>>().join(" ");
+        let mut racing: Vec<String> = Vec::new();
+        for a in &x.ops {
+            if x.ops.iter().any(|b| b.task != a.task && !(b.ret < a.call || a.ret < b.call)) {
+                racing.push(short(&a.op));
+            }
+        }
+        racing.sort_unstable();
+        racing.dedup();
+        // keys renamed by first appearance: `clear+get j` and `clear+get k` are the same race
+        let mut names: Vec<String> = Vec::new();
+        let renamed: Vec<String> = racing
+            .iter()
+            .map(|r| match r.split_once(' ') {
+                Some((op, key)) => {
+                    let i = names.iter().position(|n| n == key).unwrap_or_else(|| {
+                        names.push(key.to_string());
+                        names.len() - 1
+                    });
+                    format!("{op} {}", ["p", "q", "r", "s"][i.min(3)])
+                }
+                None => r.clone(),
+            })
+            .collect();
+        format!("{class}|{kind}|overlapping:{}", renamed.join("+"))
+    }
+}
+
+/// Signature for the bodies with a concurrent `stats()`: a panic is named by the source file it
+/// comes from (the reporting code of that cache), anything else by the overlapping operations.
+fn sig_stats(class: &str) -> impl Fn(&str, &Trace) -> String + Sync + '_ {
+    move |kind: &str, x: &Trace| {
+        if kind == "panic" {
+            if let Err((_, detail)) = &x.verdict {
+                if let Some((_, loc)) = detail.rsplit_once(" at ") {
+                    return format!("{class}|stats-concurrent|panic|{}", crate::util::norm_loc(loc.trim()));
+                }
+            }
+        }
+        sig_by_overlap(class)(kind, x)
+    }
+}
+
 fn bodies(tier: Tier) -> Vec<CacheBody> {
     let mut out = Vec::new();
     // ---- MemoryCache, non-evicting ----
@@ -787,7 +932,7 @@ fn bodies(tier: Tier) -> Vec<CacheBody> {
                 if ro(&single[i]) && ro(&single[j]) && pre.iter().all(|p| !matches!(p, COp::PutX(..))) {
                     continue;
                 }
-                out.push(CacheBody { kind: mem.clone(), setup: pre.clone(), tasks: vec![vec![single[i].clone()], vec![single[j].clone()]], evicting: false });
+                out.push(CacheBody { kind: mem.clone(), setup: pre.clone(), tasks: vec![vec![single[i].clone()], vec![single[j].clone()]], evicting: false, reopen: false });
             }
         }
     }
@@ -805,7 +950,7 @@ fn bodies(tier: Tier) -> Vec<CacheBody> {
                 if tier == Tier::Quick && (i + j) % 2 == 1 {
                     continue;
                 }
-                out.push(CacheBody { kind: mem.clone(), setup: pre.clone(), tasks: vec![two[i].clone(), two[j].clone()], evicting: false });
+                out.push(CacheBody { kind: mem.clone(), setup: pre.clone(), tasks: vec![two[i].clone(), two[j].clone()], evicting: false, reopen: false });
             }
         }
     }
@@ -815,7 +960,7 @@ fn bodies(tier: Tier) -> Vec<CacheBody> {
             for i in 0..single.len() {
                 for j in i..single.len() {
                     for l in j..single.len() {
-                        out.push(CacheBody { kind: mem.clone(), setup: pre.clone(), tasks: vec![vec![single[i].clone()], vec![single[j].clone()], vec![single[l].clone()]], evicting: false });
+                        out.push(CacheBody { kind: mem.clone(), setup: pre.clone(), tasks: vec![vec![single[i].clone()], vec![single[j].clone()], vec![single[l].clone()]], evicting: false, reopen: false });
                     }
                 }
             }
@@ -844,7 +989,7 @@ fn bodies(tier: Tier) -> Vec<CacheBody> {
             if tier == Tier::Quick && policy != 0 && n < 4 && n != 0 {
                 continue;
             }
-            out.push(CacheBody { kind: small.clone(), setup: evict_setup.clone(), tasks: vec![vec![COp::Put("m", "b")], vec![o.clone()]], evicting: true });
+            out.push(CacheBody { kind: small.clone(), setup: evict_setup.clone(), tasks: vec![vec![COp::Put("m", "b")], vec![o.clone()]], evicting: true, reopen: false });
         }
         // byte limit 20: k(3) + j(13) + m(8) = 24 needs an eviction round in evict_for_bytes
         let tight = Kind::Memory { max_entries: 1000, policy, max_bytes: 20 };
@@ -852,7 +997,7 @@ fn bodies(tier: Tier) -> Vec<CacheBody> {
             if tier == Tier::Quick && (n == 1 || n == 7) {
                 continue;
             }
-            out.push(CacheBody { kind: tight.clone(), setup: evict_setup.clone(), tasks: vec![vec![COp::Put("m", "b")], vec![o.clone()]], evicting: true });
+            out.push(CacheBody { kind: tight.clone(), setup: evict_setup.clone(), tasks: vec![vec![COp::Put("m", "b")], vec![o.clone()]], evicting: true, reopen: false });
         }
     }
 
@@ -870,15 +1015,15 @@ fn bodies(tier: Tier) -> Vec<CacheBody> {
                     if tier == Tier::Quick && subdirs && (i + j) % 2 == 1 {
                         continue;
                     }
-                    out.push(CacheBody { kind: disk.clone(), setup: pre.clone(), tasks: vec![vec![dsingle[i].clone()], vec![dsingle[j].clone()]], evicting: false });
+                    out.push(CacheBody { kind: disk.clone(), setup: pre.clone(), tasks: vec![vec![dsingle[i].clone()], vec![dsingle[j].clone()]], evicting: false, reopen: false });
                 }
             }
         }
         // different keys sharing a temp-file name (x.y / x.z both write x.tmp)
-        out.push(CacheBody { kind: disk.clone(), setup: vec![], tasks: vec![vec![COp::Put("x.y", "a")], vec![COp::Put("x.z", "d")]], evicting: false });
-        out.push(CacheBody { kind: disk.clone(), setup: vec![], tasks: vec![vec![COp::Put("x.y", "a"), COp::Get("x.y")], vec![COp::Put("x.z", "d"), COp::Get("x.z")]], evicting: false });
+        out.push(CacheBody { kind: disk.clone(), setup: vec![], tasks: vec![vec![COp::Put("x.y", "a")], vec![COp::Put("x.z", "d")]], evicting: false, reopen: false });
+        out.push(CacheBody { kind: disk.clone(), setup: vec![], tasks: vec![vec![COp::Put("x.y", "a"), COp::Get("x.y")], vec![COp::Put("x.z", "d"), COp::Get("x.z")]], evicting: false, reopen: false });
         // different plain keys: must be completely independent
-        out.push(CacheBody { kind: disk.clone(), setup: vec![], tasks: vec![vec![COp::Put("k", "a"), COp::Get("k")], vec![COp::Put("j", "d"), COp::Remove("j")]], evicting: false });
+        out.push(CacheBody { kind: disk.clone(), setup: vec![], tasks: vec![vec![COp::Put("k", "a"), COp::Get("k")], vec![COp::Put("j", "d"), COp::Remove("j")]], evicting: false, reopen: false });
         // two operations per task on the colliding key
         let dtwo: Vec<Vec<COp>> = vec![
             vec![COp::Put("k", "b"), COp::Get("k")],
@@ -890,7 +1035,7 @@ fn bodies(tier: Tier) -> Vec<CacheBody> {
         if !subdirs || tier == Tier::Thorough {
             for i in 0..dtwo.len() {
                 for j in i..dtwo.len() {
-                    out.push(CacheBody { kind: disk.clone(), setup: vec![COp::Put("k", "a")], tasks: vec![dtwo[i].clone(), dtwo[j].clone()], evicting: false });
+                    out.push(CacheBody { kind: disk.clone(), setup: vec![COp::Put("k", "a")], tasks: vec![dtwo[i].clone(), dtwo[j].clone()], evicting: false, reopen: false });
                 }
             }
         }
@@ -899,10 +1044,73 @@ fn bodies(tier: Tier) -> Vec<CacheBody> {
             for i in 0..dsingle.len() {
                 for j in i..dsingle.len() {
                     for l in j..dsingle.len() {
-                        out.push(CacheBody { kind: disk.clone(), setup: vec![COp::Put("k", "a")], tasks: vec![vec![dsingle[i].clone()], vec![dsingle[j].clone()], vec![dsingle[l].clone()]], evicting: false });
+                        out.push(CacheBody { kind: disk.clone(), setup: vec![COp::Put("k", "a")], tasks: vec![vec![dsingle[i].clone()], vec![dsingle[j].clone()], vec![dsingle[l].clone()]], evicting: false, reopen: false });
                     }
                 }
             }
+        }
+    }
+    // ---- DiskCache, second instance on the directory the set-up filled: the index is empty, so
+    // the first access of a key goes through the on-disk fallback (get reads the file and
+    // indexes it afterwards; remove and clear delete files that are not indexed). Two gets are
+    // not "two readers" here: both try to index the key.
+    for subdirs in [false, true] {
+        if subdirs && tier == Tier::Quick {
+            continue;
+        }
+        let disk = Kind::Disk { subdirs };
+        let rsingle: Vec<COp> = vec![COp::Get("k"), COp::Remove("k"), COp::Clear, COp::Put("k", "b"), COp::PutX("k", "c"), COp::Get("j"), COp::Contains("k")];
+        for pre in [vec![COp::Put("k", "a")], vec![COp::Put("k", "a"), COp::Put("j", "d")], vec![COp::PutX("k", "a")]] {
+            for i in 0..rsingle.len() {
+                for j in i..rsingle.len() {
+                    out.push(CacheBody { kind: disk.clone(), setup: pre.clone(), tasks: vec![vec![rsingle[i].clone()], vec![rsingle[j].clone()]], evicting: false, reopen: true });
+                }
+            }
+        }
+        // the indexing get followed by a second operation of the same task
+        let rtwo: Vec<Vec<COp>> = vec![
+            vec![COp::Get("k"), COp::Get("k")],
+            vec![COp::Get("k"), COp::Put("k", "d")],
+            vec![COp::Remove("k"), COp::Get("k")],
+            vec![COp::Get("j"), COp::Clear],
+        ];
+        for i in 0..rtwo.len() {
+            for j in i..rtwo.len() {
+                if tier == Tier::Quick && (i + j) % 2 == 1 {
+                    continue;
+                }
+                out.push(CacheBody { kind: disk.clone(), setup: vec![COp::Put("k", "a"), COp::Put("j", "d")], tasks: vec![rtwo[i].clone(), rtwo[j].clone()], evicting: false, reopen: true });
+            }
+        }
+        if tier == Tier::Thorough {
+            for i in 0..rsingle.len() {
+                for j in i..rsingle.len() {
+                    for l in j..rsingle.len() {
+                        out.push(CacheBody { kind: disk.clone(), setup: vec![COp::Put("k", "a"), COp::Put("j", "d")], tasks: vec![vec![rsingle[i].clone()], vec![rsingle[j].clone()], vec![rsingle[l].clone()]], evicting: false, reopen: true });
+                    }
+                }
+            }
+        }
+    }
+    // ---- stats() while another task works: the reporting call must return whatever the other
+    // task is doing (it reads several counters one after the other)
+    for kind in [Kind::Memory { max_entries: 1000, policy: 0, max_bytes: 0 }, Kind::Disk { subdirs: false }] {
+        let against: Vec<Vec<COp>> = vec![
+            vec![COp::Get("k")],
+            vec![COp::Get("k"), COp::Get("k")],
+            vec![COp::Put("k", "b")],
+            vec![COp::Remove("k")],
+            vec![COp::Clear],
+            vec![COp::Get("j")],
+        ];
+        for pre in [vec![COp::Put("k", "a")], vec![COp::Put("k", "a"), COp::Get("k"), COp::Get("j")]] {
+            for t in &against {
+                out.push(CacheBody { kind: kind.clone(), setup: pre.clone(), tasks: vec![vec![COp::Stats], t.clone()], evicting: false, reopen: false });
+            }
+        }
+        if tier == Tier::Thorough {
+            out.push(CacheBody { kind: kind.clone(), setup: vec![COp::Put("k", "a")], tasks: vec![vec![COp::Stats], vec![COp::Get("k")], vec![COp::Get("k")]], evicting: false, reopen: false });
+            out.push(CacheBody { kind: kind.clone(), setup: vec![COp::Put("k", "a")], tasks: vec![vec![COp::Stats, COp::Stats], vec![COp::Get("k"), COp::Clear]], evicting: false, reopen: false });
         }
     }
     // ---- ProtocolCache over DiskCache: store/get/clear through the sync bridge
@@ -916,7 +1124,7 @@ fn bodies(tier: Tier) -> Vec<CacheBody> {
                 if tier == Tier::Quick && (i + j) % 2 == 1 {
                     continue;
                 }
-                out.push(CacheBody { kind: Kind::Protocol, setup: pre.clone(), tasks: vec![vec![psingle[i].clone()], vec![psingle[j].clone()]], evicting: false });
+                out.push(CacheBody { kind: Kind::Protocol, setup: pre.clone(), tasks: vec![vec![psingle[i].clone()], vec![psingle[j].clone()]], evicting: false, reopen: false });
             }
         }
     }
@@ -935,7 +1143,7 @@ fn bodies(tier: Tier) -> Vec<CacheBody> {
                 if tier == Tier::Quick && (i + j) % 2 == 1 {
                     continue;
                 }
-                out.push(CacheBody { kind: Kind::Layered, setup: pre.clone(), tasks: vec![vec![lsingle[i].clone()], vec![lsingle[j].clone()]], evicting: true });
+                out.push(CacheBody { kind: Kind::Layered, setup: pre.clone(), tasks: vec![vec![lsingle[i].clone()], vec![lsingle[j].clone()]], evicting: true, reopen: false });
             }
         }
     }
@@ -948,6 +1156,9 @@ pub fn run(tier: Tier, seed: u64) -> i32 {
     rep.assume("sequential consistency at hook granularity (Relaxed counters are not explored under weak memory)");
     rep.assume("the std RwLocks of cascette-cache (DiskCache index, multi-layer promotion tracker) and the parking_lot RwLocks of DynamicContainer (index, archive, allocator, LRU) are scheduler-aware: acquire and release are scheduling points, a blocked acquire disables the task until a release, all-blocked is reported as deadlock; hooks never sit inside the guard scopes of locks that are not wrapped (DashMap shards, the other parking_lot locks of cascette-client-storage), where a lock-holding segment is atomic as in reality");
     rep.assume("map specification: expired entries answer None/false; removing an expired entry may return either boolean; a failed op takes no effect and may fail only when a concurrent op of another task touches the same key");
+    rep.assume("books: size() and stats() are read right after the last task returned and again after one get per key; before the gets they may exceed the retrievable contents only by entries that were put with ttl 0 (uncollected expired entries), after them they must be equal; under-reporting before the gets is not judged here");
+    rep.assume("pre-state 'new instance on a filled directory' (DiskCache bodies marked so): the set-up runs sequentially on a first instance with the same configuration, which is dropped before the tasks start on a second one; its signatures name the overlapping operations (keys renamed) instead of the preempted sites, because every schedule into the same lock window preempts at a different mix of rwlock points");
+    rep.assume("a concurrent stats() must return without failing; its hit/miss figures are not judged; it can only be preempted inside AtomicCacheMetrics::fast_snapshot if the repository carries the scheduling point metrics.snapshot.hit (without it the stats bodies explore the coarser interleavings only)");
     let bound = tier.pick(2, 3);
     let budget = Duration::from_secs(tier.pick(40, 900));
     let start = std::time::Instant::now();
@@ -963,7 +1174,13 @@ pub fn run(tier: Tier, seed: u64) -> i32 {
             break;
         };
         let class = b.class();
-        let st = explore(b, bound, Some(left), &rep, &sig_for(class));
+        let st = if b.reopen {
+            explore(b, bound, Some(left), &rep, &sig_by_overlap(class))
+        } else if b.tasks.iter().flatten().any(|o| matches!(o, COp::Stats)) {
+            explore(b, bound, Some(left), &rep, &sig_stats(class))
+        } else {
+            explore(b, bound, Some(left), &rep, &sig_for(class))
+        };
         total_exec += st.executions;
         total_points += st.executions * st.max_points as u64;
         nontrivial += st.by_preemptions.iter().skip(1).sum::<u64>();
